@@ -85,7 +85,9 @@ def h_mutex(ctx, cls, kind, gi):
     absent = [m for m in members if m not in kw]
     if absent:
         m0 = absent[ctx.choice("spelled", list(range(len(absent))))]
-        blank = ctx.choice("blank", [None, ""]) if isinstance(spec[m0], (Types.String, Types.OneOf)) else None
+        # (for character data also: blanks, and entity text that decodes to blanks only)
+        blank = ctx.choice("blank", [None, "", " ", "&nbsp;", " &nbsp;", "&#32;"] if isinstance(spec[m0], Types.String) else [None, ""]) \
+            if isinstance(spec[m0], (Types.String, Types.OneOf)) else None
         kw2 = dict(kw)
         kw2[m0] = blank
         inst = None
